@@ -191,38 +191,6 @@ Definition times_exec (A : arith) (t : inst) (n : nat) (ps : list Z) : list (lis
   let rows := map (fun s => let o := offset t A s in map (fun x => to_ns A (add A x o)) smp) (seq 0 n) in
   map (fun L => nth (L / ndet t) rows []) (lines t n).
 
-(* run-length compression for printing *)
-Fixpoint rle {X} (eqb : X -> X -> bool) (l : list X) : list (nat * X) :=
-  match l with
-  | [] => []
-  | x :: t => match rle eqb t with
-              | (k, y) :: r => if eqb x y then (S k, y) :: r else (1%nat, x) :: (k, y) :: r
-              | [] => [(1%nat, x)]
-              end
-  end.
-Fixpoint list_eqb {X} (eqb : X -> X -> bool) (a b : list X) : bool :=
-  match a, b with
-  | [], [] => true
-  | x :: a', y :: b' => eqb x y && list_eqb eqb a' b'
-  | _, _ => false
-  end.
-Definition Qeqb (a b : Q) : bool := (Qnum a =? Qnum b)%Z && (Qden a =? Qden b)%positive.
-(* row digest: (sum x_i, sum (i+1) x_i) over exact integers *)
-Definition row_hash (r : list Z) : Z * Z :=
-  let '(_, s1, s2) := fold_left (fun acc x => let '(i, s1, s2) := acc in ((i + 1)%Z, (s1 + x)%Z, (s2 + i * x)%Z))
-                                r (1%Z, 0%Z, 0%Z) in (s1, s2).
-
-(* printed per case: angle planes as rle of rows of rle of reduced rationals;
-   times as rle over rows of (row length, digest, first, last) *)
-Definition show_angles (a : list (list (list Q))) : list (list (nat * list (nat * (Z * Z)))) :=
-  map (fun plane => rle (list_eqb (fun x y => Nat.eqb (fst x) (fst y) && (fst (snd x) =? fst (snd y))%Z
-                                                && (snd (snd x) =? snd (snd y))%Z))
-                        (map (fun row => map (fun kq => (fst kq, (Qnum (snd kq), Zpos (Qden (snd kq)))))
-                                             (rle Qeqb (map Qred row))) plane)) a.
-Definition show_times (tm : list (list Z)) : list (nat * (nat * (Z * Z) * Z * Z)) :=
-  map (fun kr => let r := snd kr in (fst kr, (length r, row_hash r, hd 0%Z r, last r 0%Z)))
-      (rle (list_eqb Z.eqb) tm).
-
 (* ---------- bounded sweep of the binary64 model (theorems with the bound in the statement) ---------- *)
 Definition near (a b : Z) (q : Q) (tol : Q) : bool :=
   Qle_bool (inject_Z (b - a) - q) tol && Qle_bool (- tol) (inject_Z (b - a) - q).
